@@ -89,7 +89,7 @@ def build_world(cfg):
     table = table_from_perms(cfg["T"], max_t, perms, sign, zero_rank=cfg.get("zero_rank"))
     spec = dict(W=cfg["W"], T=cfg["T"], R=max_t, table=table, brackets=(nb if nb > 1 else 0) if not cfg.get("free_brackets") else 0,
                 max_resource_attr="epochs" if cfg.get("use_mra") else None,
-                fail_budget=cfg.get("F", 0))
+                fail_budget=cfg.get("F", 0), id0=cfg.get("id0", 0))
     ref = StoppingRef(levels, max_t, cfg["mode"], nb, cfg["per_bracket"],
                       rush_k=cfg.get("rush_k") if cfg["type"] == "rush_stopping" else None)
     w = World(s, spec, [ref, RungInvariant(ref)])
@@ -146,6 +146,7 @@ def configs(tier, seed):
                         cfg = dict(rs=rs_name, mode=mode, brackets=brackets, per_bracket=per_bracket, type=typ,
                                    rush_k=k, T=T, W=W, perms=perms, seed=seed, use_mra=(i % 2 == 1))
                         cfg["zero_rank"] = [None, T - 1, 1][(i + len(out)) % 3]
+                        cfg["id0"] = 8 if (typ == "stopping" and len(out) % 2) else 0
                         if tier == "quick":
                             cfg["max_states"] = 4000
                         else:
